@@ -129,7 +129,7 @@ def _note_ok(e, fn, call_args):
 
 
 # ------------------------------------------------------------------ one plan
-def run_plan(w, cfg, faults, ref, tape, gens):
+def run_plan(w, cfg, faults, ref, tape, gens, then=None):
     viol = []
     info = {"probes": {}, "fired": [], "yields": 0, "digest": None}
 
@@ -242,6 +242,69 @@ def run_plan(w, cfg, faults, ref, tape, gens):
                     # 6. completed results stay loadable
                     if kind not in ("call", "run"):
                         _check_loadable(w, cfg, folder, ref, V)
+                    # 7. fault sequence: the SAME pipeline object fails a second time, in another invocation
+                    if then is not None and inproc and not viol:
+                        second(then)
+
+                def second(t):
+                    nonlocal err, outcome
+                    f2 = Fault(t["fn"], t.get("args_obj"), t["exc"]) if t.get("args_obj") is not None \
+                        else Fault(t["fn"], None, t["exc"], nth=t.get("nth", 0))
+                    sim.faults = FaultPlan([f2])
+                    n0 = len(sim.calls)
+                    err2 = None
+                    try:
+                        main()
+                    except (Deadlock, StepCap) as e:
+                        V("liveness", "second-failure-" + type(e).__name__, str(e))
+                        return
+                    except Exception as e:  # noqa: BLE001
+                        err2 = e
+                    try:
+                        k.drain()
+                    except (Deadlock, StepCap):
+                        pass
+                    if not f2.fired:
+                        info["probes"]["second_fault_not_reached"] = 1
+                        return
+                    info["probes"]["second_failure_on_same_pipeline"] = 1
+                    planned2 = _exc_id(make_exc(f2.exc_kind))
+                    if err2 is None or _exc_id(err2) != planned2:
+                        V("surface", "second-failure-exception-changed", {"got": repr(_exc_id(err2)) if err2 else None, "planned": repr(planned2)})
+                        return
+                    raised2 = [c for c in sim.calls[n0:] if c.raised]
+                    if not any(_note_ok(err2, c.fn, c.args) for c in raised2):
+                        V("attribution", "second-failure-note-missing", {"notes": getattr(err2, "__notes__", None),
+                                                                        "failing_calls": [repr(c) for c in raised2][:3]})
+                        return
+                    fd = next(x for x in w["functions"] if x["name"] == f2.fn)
+                    out = fd["outputs"][0] if len(fd["outputs"]) == 1 else tuple(fd["outputs"])
+                    snap = p[out].error_snapshot
+                    same_fn = all(f.fn == f2.fn for f in fobjs)
+                    tag = "same-function" if same_fn else "other-function"
+                    if snap is None:
+                        V("snapshot", f"second-failure-snapshot-missing:{tag}", {"fn": f2.fn})
+                        return
+                    got_kw = {k2: canon(v2) for k2, v2 in snap.kwargs.items()}
+                    if got_kw not in [dict(c.args) for c in raised2 if c.fn == f2.fn] or _exc_id(snap.exception) != planned2:
+                        V("snapshot", f"function-snapshot-stale-after-second-failure:{tag}",
+                          {"fn": f2.fn, "snapshot_kwargs": repr(got_kw)[:300], "snapshot_exception": repr(_exc_id(snap.exception)),
+                           "second_failure": [repr(c) for c in raised2][:2]})
+                        return
+                    ps = p.error_snapshot
+                    if ps is None or _exc_id(ps.exception) != planned2 or \
+                            {k2: canon(v2) for k2, v2 in ps.kwargs.items()} not in [dict(c.args) for c in raised2]:
+                        V("snapshot", f"pipeline-snapshot-stale-after-second-failure:{tag}",
+                          {"pipeline_snapshot": None if ps is None else [repr(_exc_id(ps.exception)), repr(ps.kwargs)[:200]],
+                           "second_failure": [repr(c) for c in raised2][:2]})
+                        return
+                    try:
+                        ps.reproduce()
+                    except Exception as e:  # noqa: BLE001
+                        if _exc_id(e) != planned2:
+                            V("snapshot", f"pipeline-snapshot-reproduces-other-exception:{tag}", {"reproduced": repr(_exc_id(e))})
+                    else:
+                        V("snapshot", f"pipeline-snapshot-did-not-reproduce-after-second-failure:{tag}")
 
                 try:
                     sim.kernel.run(wrapped)
@@ -255,7 +318,8 @@ def run_plan(w, cfg, faults, ref, tape, gens):
             simmanager.shutdown_all(sim)
         info["yields"] = sim.kernel.steps
         info["digest"] = sim.kernel.digest()
-        info["probes"] = dict(sim.probes)
+        for k3, v3 in sim.probes.items():
+            info["probes"][k3] = info["probes"].get(k3, 0) + v3
     return viol, info
 
 
@@ -392,7 +456,8 @@ def run_case(case, exec_seed=None, exec_tape=None):
     gens = C.generations(w)
     if case["mode"] == "plan":
         tape = Tape(exec_seed) if exec_tape is None else Tape(recorded=exec_tape)
-        viol, info = run_plan(w, cfg, _resolve_faults(case["faults"], ref), ref, tape, gens)
+        then = _resolve_faults([case["then"]], ref)[0] if case.get("then") else None
+        viol, info = run_plan(w, cfg, _resolve_faults(case["faults"], ref), ref, tape, gens, then=then)
         out.update(violations=viol, exec_tape=tape.recorded(), digest=info["digest"], evaluations=1, probes=info["probes"])
         return out
     seed = exec_seed or 0
@@ -410,12 +475,23 @@ def run_case(case, exec_seed=None, exec_tape=None):
             a, b = sel.pick(plans, "a")[0], sel.pick(plans, "b")[0]
             if (a["fn"], a["ref_index"]) != (b["fn"], b["ref_index"]):
                 plans.append([a, dict(b, exc=a["exc"] if sel.coin(0.6, "same-exc") else sel.pick(EXC_KINDS, "exc"))])
+    thens = {}
+    if cfg["exec"] in ("call", "run", "map-seq", "map-thread", "async-thread") and len(plans) >= 2:
+        singles = [p0 for p0 in plans if len(p0) == 1]
+        for _ in range(min(4, len(singles))):
+            a = sel.pick(singles, "then-a")[0]
+            same = [p0[0] for p0 in singles if p0[0]["fn"] == a["fn"] and p0[0]["ref_index"] != a["ref_index"]]
+            b = sel.pick(same, "then-b") if same and sel.coin(0.6, "then-same-fn") else sel.pick(singles, "then-b")[0]
+            if (a["fn"], a["ref_index"]) != (b["fn"], b["ref_index"]):
+                thens[len(plans)] = dict(b, exc=sel.pick(EXC_KINDS, "then-exc"))
+                plans.append([a])
     probes = {}
     nontrivial = set()
     wd = C.digest_of([describe(w), cfg["exec"]])
     for pi, plan in enumerate(plans):
         tape = Tape(derive_seed(seed, "plan", pi))
-        viol, info = run_plan(w, cfg, _resolve_faults(plan, ref), ref, tape, gens)
+        then = _resolve_faults([thens[pi]], ref)[0] if pi in thens else None
+        viol, info = run_plan(w, cfg, _resolve_faults(plan, ref), ref, tape, gens, then=then)
         out["evaluations"] += 1
         out["yields"] += info["yields"]
         for k2, v2 in info["probes"].items():
@@ -427,7 +503,7 @@ def run_case(case, exec_seed=None, exec_tape=None):
         else:
             probes["fault_not_reached"] = probes.get("fault_not_reached", 0) + 1
         for v in viol:
-            v["case"] = {"mode": "plan", "workload": w, "config": cfg, "faults": plan}
+            v["case"] = {"mode": "plan", "workload": w, "config": cfg, "faults": plan, **({"then": thens[pi]} if pi in thens else {})}
             v["exec_tape"] = tape.recorded()
             out["violations"].append(v)
     probes[f"exec:{cfg['exec']}"] = 1
